@@ -89,6 +89,8 @@ fn smh_case<H: Hasher + Default>(ctx: &mut Ctx, m: usize, items: &[u64], chunks:
                 } else if !sl.is_empty() {
                     s.sketch_slice(sl).unwrap();
                 }
+                let _ = s.get_hsketch().len(); // observers between chunks
+                let _ = s.get_jaccard_index_estimate(&s.get_hsketch().clone());
             }
             dump_smh(&s, f32hx)
         }));
@@ -105,6 +107,8 @@ fn smh_case<H: Hasher + Default>(ctx: &mut Ctx, m: usize, items: &[u64], chunks:
                 } else if !sl.is_empty() {
                     s.sketch_slice(sl).unwrap();
                 }
+                let _ = s.get_hsketch().len(); // observers between chunks
+                let _ = s.get_jaccard_index_estimate(&s.get_hsketch().clone());
             }
             dump_smh(&s, fhx)
         }));
@@ -167,6 +171,7 @@ fn smh2_case(ctx: &mut Ctx, m: usize, items: &[u64], chunks: usize, kind: usize)
                     } else if !sl.is_empty() {
                         s.sketch_slice(&sl).unwrap();
                     }
+                    let _ = s.get_hsketch().len(); // observer between chunks
                 }
                 let (values, l, b, au) = s.verif_state();
                 let hs: Vec<u64> = s.get_hsketch().iter().map(|x| *x as u64).collect();
